@@ -13,7 +13,9 @@ E1m the stored strength is the slab sum of p, and strength * height^(5/3)
 E2  optimal grouping: the split -> groups conversion (both copies) yields
     len(splits)+1 contiguous index ranges tiling [0, N) for every number of
     splits >= 0, so that exactly L layers come back and no layer is dropped.
-Not decided: optimality of the grouping, GCTM moment accuracy, non-negativity.
+E4  GCTM (c18_gctm.py): the optimiser is asked the right question (moments, objective, target, start, bounds),
+    its answer is mapped back with the same split and scales, and every callback is finite on the feasible box.
+Not decided: optimality of the grouping, what the optimiser converges to (GCTM moment accuracy).
 """
 import ast
 from fractions import Fraction as Fr
@@ -222,7 +224,9 @@ def run(rep, tier, root=None):
     # ---- E3 no state survives a call (random restarts may use NumPy's global generator, which the property allows)
     purity_obligations(rep, ix, list(m.funcs.values()), "E3.no-hidden-state",
                        "a later compression optimises against values cached from an earlier profile")
-    rep.floor("C18 obligations", len(rep.obligations), 12)
+    from . import c18_gctm
+    c18_gctm.check(rep, ix)
+    rep.floor("C18 obligations", len(rep.obligations), 45)
 
 
 def tiling(rep, ix, fn):
